@@ -1,0 +1,123 @@
+//go:build verif
+
+// Contracts for the CBE reader and decoder (package cbe, second file), read as text by the
+// verification-condition generator in /verif. This file contains no code.
+//
+// Ghost state (declared in /verif/contracts/trusted/io.ct): in[0..inLen) is the byte stream the
+// source reader will deliver, pos the number of bytes delivered so far, rfailed is set once the
+// source reported an error other than io.EOF. Every contract below is proved against the general
+// io.Reader contract (any split of the data, data together with an error, empty reads), so what a
+// method returns is a function of the stream contents only (C28), and a failing source makes the
+// method panic, never return (C29).
+
+package cbe
+
+// ---------------------------------------------------------------------------------------------
+// normalizingReader: data and errors are delivered separately; an error that came with data, or
+// a failure, stays pending until it has been reported.
+//@ spec NROK(n *normalizingReader) bool = n.reader != nil && pos <= inLen && inLen <= 0x10000000000 && zeroReads < 100 && (rfailed ==> n.pendingErr != nil && n.pendingErr != io.EOF) && (n.pendingErr == io.EOF ==> pos == inLen) && (n.pendingErr != nil && n.pendingErr != io.EOF ==> rfailed)
+
+//@ func (*normalizingReader).Init
+//@   requires reader != nil && pos <= inLen && inLen <= 0x10000000000 && !rfailed && zeroReads < 100
+//@   modifies _this.reader, _this.pendingErr
+//@   ensures _this.reader == reader && _this.pendingErr == nil && NROK(_this)
+
+//@ func (*normalizingReader).Read
+//@   requires NROK(_this)
+//@   modifies pos, rfailed, zeroReads, mem(p), _this.pendingErr
+//@   ensures NROK(_this)
+//@   ensures 0 <= result0 && result0 <= len(p) && pos == old(pos) + uint64(result0)
+//@   ensures forall i uint64 :: i < uint64(result0) ==> p[i] == in[old(pos)+i]
+//@   ensures len(p) > 0 ==> ((result0 > 0 && result1 == nil) || (result0 == 0 && result1 != nil))
+//@   ensures result1 == io.EOF ==> pos == inLen && !rfailed
+//@   ensures result1 != nil && result1 != io.EOF ==> rfailed
+//@   loop 0 modifies pos, rfailed, zeroReads, mem(p)
+//@   loop 0 invariant 0 <= i && i <= 100
+//@   loop 0 invariant zeroReads < 100 && (i == 0 || uint64(i) <= zeroReads)
+//@   loop 0 invariant pos == old(pos) && rfailed == old(rfailed) && !rfailed
+//@   loop 0 invariant _this.pendingErr == nil && _this.reader != nil && pos <= inLen
+//@   loop 0 decreases 100 - i
+
+// ---------------------------------------------------------------------------------------------
+// Reader
+//@ spec ReaderOK(r *Reader) bool = r.config != nil && len(r.buffer) >= 16 && NROK(r.reader) && r.bytesRead <= pos
+//@ spec DocLimit(r *Reader) uint64 = r.config.Rules.MaxDocumentSizeBytes
+
+// A read method: needs a usable reader; on return the reader is still usable. It panics only if
+// the stream has fewer bytes than needed, the source failed, or the document size limit is hit.
+//@ macro RPATH(r)
+//@   requires ReaderOK(r)
+//@   modifies pos, rfailed, zeroReads, r.reader.pendingErr, r.bytesRead, mem(r.buffer)
+//@   ensures ReaderOK(r)
+
+//@ func (*Reader).SetReader
+//@   requires reader != nil && pos <= inLen && inLen <= 0x10000000000 && !rfailed && zeroReads < 100 && _this.config != nil && len(_this.buffer) >= 16
+//@   modifies _this.reader.reader, _this.reader.pendingErr, _this.bytesRead
+//@   ensures ReaderOK(_this) && _this.bytesRead == 0 && _this.reader.reader == reader
+
+//@ func (*Reader).expandBufferTo
+//@   requires len(_this.buffer) >= 16 && 0 <= minSize && minSize <= 0x1000000000
+//@   modifies _this.buffer, alloc
+//@   ensures len(_this.buffer) >= 16 && len(_this.buffer) >= minSize
+//@   ensures _this.buffer == old(_this.buffer) || fresh(_this.buffer)
+
+//@ func (*Reader).ReadUint8
+//@   use RPATH(_this)
+//@   ensures pos == old(pos) + 1 && result == in[old(pos)] && _this.bytesRead == old(_this.bytesRead) + 1
+//@   xensures old(pos) >= inLen || rfailed || old(_this.bytesRead) + 1 > DocLimit(_this)
+
+//@ func (*Reader).ReadTypeOrEOF
+//@   use RPATH(_this)
+//@   ensures result == 0x100 ==> pos == old(pos) && pos == inLen && !rfailed && _this.bytesRead == old(_this.bytesRead)
+//@   ensures result != 0x100 ==> pos == old(pos) + 1 && result == cbeTypeField(in[old(pos)]) && _this.bytesRead == old(_this.bytesRead) + 1
+//@   xensures rfailed || old(_this.bytesRead) + 1 > DocLimit(_this)
+
+//@ func (*Reader).ReadType
+//@   use RPATH(_this)
+//@   ensures pos == old(pos) + 1 && result == cbeTypeField(in[old(pos)]) && _this.bytesRead == old(_this.bytesRead) + 1
+//@   xensures old(pos) >= inLen || rfailed || old(_this.bytesRead) + 1 > DocLimit(_this)
+
+//@ func (*Reader).readIntoBuffer
+//@   use RPATH(_this)
+//@   requires 0 <= count && count <= 0x1000000000
+//@   modifies _this.buffer, alloc
+//@   ensures pos == old(pos) + uint64(count) && _this.bytesRead == old(_this.bytesRead) + uint64(count) && len(_this.buffer) >= count
+//@   ensures forall i uint64 :: i < uint64(count) ==> _this.buffer[i] == in[old(pos)+i]
+//@   xensures inLen - old(pos) < uint64(count) || rfailed || old(_this.bytesRead) + uint64(count) > DocLimit(_this)
+//@   loop 0 modifies pos, rfailed, zeroReads, _this.reader.pendingErr, _this.bytesRead, mem(_this.buffer)
+//@   loop 0 invariant ReaderOK(_this) && len(_this.buffer) >= count && 0 <= len(dst) && len(dst) <= count && dst.arr == _this.buffer.arr
+//@   loop 0 invariant _this.buffer.off <= dst.off && dst.off + len(dst) == _this.buffer.off + count && dst.off + cap(dst) == _this.buffer.off + cap(_this.buffer)
+//@   loop 0 invariant pos + uint64(_this.buffer.off) == old(pos) + uint64(dst.off) && _this.bytesRead + uint64(_this.buffer.off) == old(_this.bytesRead) + uint64(dst.off)
+//@   loop 0 invariant forall i uint64 :: i < uint64(count) && uint64(_this.buffer.off) + i < uint64(dst.off) ==> _this.buffer[i] == in[old(pos)+i]
+//@   loop 0 decreases len(dst)
+
+//@ func (*Reader).ReadBytes
+//@   use RPATH(_this)
+//@   requires 0 <= byteCount && byteCount <= 0x1000000000
+//@   modifies _this.buffer, alloc
+//@   ensures pos == old(pos) + uint64(byteCount) && _this.bytesRead == old(_this.bytesRead) + uint64(byteCount)
+//@   ensures len(result) == byteCount && result.arr == _this.buffer.arr && result.off == _this.buffer.off
+//@   ensures forall i uint64 :: i < uint64(byteCount) ==> result[i] == in[old(pos)+i]
+//@   xensures inLen - old(pos) < uint64(byteCount) || rfailed || old(_this.bytesRead) + uint64(byteCount) > DocLimit(_this)
+
+// Fixed-width little-endian integers.
+//@ func (*Reader).ReadUint16
+//@   use RPATH(_this)
+//@   modifies _this.buffer, alloc
+//@   ensures pos == old(pos) + 2 && _this.bytesRead == old(_this.bytesRead) + 2
+//@   ensures result == uint16(in[old(pos)]) | uint16(in[old(pos)+1]) << 8
+//@   xensures inLen - old(pos) < 2 || rfailed || old(_this.bytesRead) + 2 > DocLimit(_this)
+
+//@ func (*Reader).ReadUint32
+//@   use RPATH(_this)
+//@   modifies _this.buffer, alloc
+//@   ensures pos == old(pos) + 4 && _this.bytesRead == old(_this.bytesRead) + 4
+//@   ensures result == uint32(in[old(pos)]) | uint32(in[old(pos)+1]) << 8 | uint32(in[old(pos)+2]) << 16 | uint32(in[old(pos)+3]) << 24
+//@   xensures inLen - old(pos) < 4 || rfailed || old(_this.bytesRead) + 4 > DocLimit(_this)
+
+//@ func (*Reader).ReadUint64
+//@   use RPATH(_this)
+//@   modifies _this.buffer, alloc
+//@   ensures pos == old(pos) + 8 && _this.bytesRead == old(_this.bytesRead) + 8
+//@   ensures result == uint64(in[old(pos)]) | uint64(in[old(pos)+1]) << 8 | uint64(in[old(pos)+2]) << 16 | uint64(in[old(pos)+3]) << 24 | uint64(in[old(pos)+4]) << 32 | uint64(in[old(pos)+5]) << 40 | uint64(in[old(pos)+6]) << 48 | uint64(in[old(pos)+7]) << 56
+//@   xensures inLen - old(pos) < 8 || rfailed || old(_this.bytesRead) + 8 > DocLimit(_this)
